@@ -10,7 +10,7 @@ Open Scope N_scope.
 Theorem C17_merge_ref_roundtrip :
   forall (st : ref_style) (lower : bool) (d : dims),
     dims_ok ROW_LIMIT COL_LIMIT d -> ref_style_legal st d = true ->
-    get_dimension (render_ref st lower d) = Ok d.
+    get_dimension_h (render_ref st lower d) = Ok d.
 Proof. exact merge_ref_roundtrip. Qed.
 
 (* xlsx: for every workbook (any number of sheets, 0..n regions each, every legal way of writing
@@ -128,6 +128,63 @@ Theorem C17_fast_versions_equal :
   (forall subs, xls_sheets_fast subs = xls_sheets subs).
 Proof. exact (conj parse_merge_cells_fast_eq xls_sheets_fast_eq). Qed.
 
+(* ---------- totality: no input makes the modelled functions panic (for C06) ----------
+   No well-formedness hypothesis: any byte string, any event list, any zip.  [get_dimension_h] is
+   the A1 scanner after 348f419 / 717a5d9 (u64 saturating arithmetic, u32::try_from), see Merge.v. *)
+Theorem C17_no_panic_get_dimension :
+  forall s : list N, get_dimension_h s <> Panic /\ get_dimension_h s <> OutOfFuel.
+Proof. exact (fun s => @safe_not_panic _ _ (get_dimension_h_safe s)). Qed.
+
+(* xlsx: read_merged_regions' loop over a part, read_merge_cells, the loop of
+   worksheet_merge_cells, and both entry points over any zip and sheet list *)
+Theorem C17_no_panic_read_merge_cells :
+  (forall evs : list event, scan_merge_regions evs <> Panic /\ scan_merge_regions evs <> OutOfFuel) /\
+  (forall evs : list event, read_merge_cells evs <> Panic /\ read_merge_cells evs <> OutOfFuel) /\
+  (forall evs : list event, find_merge_cells evs <> Panic /\ find_merge_cells evs <> OutOfFuel) /\
+  (forall z sheets, read_merged_regions z sheets <> Panic /\ read_merged_regions z sheets <> OutOfFuel) /\
+  (forall z sheets name o, worksheet_merge_cells z sheets name = Some o -> o <> Panic /\ o <> OutOfFuel).
+Proof.
+  exact (conj (fun evs => @safe_not_panic _ _ (scan_merge_regions_safe evs))
+        (conj (fun evs => @safe_not_panic _ _ (read_merge_cells_safe evs))
+        (conj (fun evs => @safe_not_panic _ _ (find_merge_cells_safe evs))
+        (conj (fun z sheets => @safe_not_panic _ _ (read_merged_regions_safe z sheets))
+              (fun z sheets name o H => @safe_not_panic _ _ (worksheet_merge_cells_safe z sheets name H)))))).
+Qed.
+
+(* xls: MergeCells record data of any length and content; any list of sheet substreams *)
+Theorem C17_no_panic_parse_merge_cells :
+  (forall r : list N, parse_merge_cells r <> Panic /\ parse_merge_cells r <> OutOfFuel) /\
+  (forall subs, xls_sheets subs <> Panic /\ xls_sheets subs <> OutOfFuel).
+Proof.
+  exact (conj (fun r => @safe_not_panic _ _ (parse_merge_cells_safe r))
+              (fun subs => @safe_not_panic _ _ (xls_sheets_safe subs))).
+Qed.
+
+(* xlsx tables: the geometry arithmetic for any scanned attribute values, the table and rels
+   loops over any event list, name unescaping on any bytes, and read_table_metadata over any zip —
+   the latter for sheet paths that contain a '/' (read_workbook only produces "xl/…" paths; a
+   path without one still hits `.expect("should be in a folder")`: rels_location_still_panics) *)
+Theorem C17_no_panic_table_metadata :
+  (forall m : tmeta, table_dims m <> Panic /\ table_dims m <> OutOfFuel) /\
+  (forall evs m cols, scan_table evs m cols <> Panic /\ scan_table evs m cols <> OutOfFuel) /\
+  (forall base evs, scan_rels base evs <> Panic /\ scan_rels base evs <> OutOfFuel) /\
+  (forall s : str, unescape s <> Panic /\ unescape s <> OutOfFuel) /\
+  (forall z sheets, Forall (fun sp => rfind_slash (snd sp) <> None) sheets ->
+     read_table_metadata z sheets <> Panic /\ read_table_metadata z sheets <> OutOfFuel).
+Proof.
+  exact (conj (fun m => @safe_not_panic _ _ (table_dims_safe m))
+        (conj (fun evs m cols => @safe_not_panic _ _ (scan_table_safe evs m cols))
+        (conj (fun base evs => @safe_not_panic _ _ (scan_rels_safe base evs))
+        (conj (fun s => @safe_not_panic _ _ (unescape_safe s))
+              (fun z sheets H => @safe_not_panic _ _ (read_table_metadata_safe z H)))))).
+Qed.
+
+Example C17_no_panic_nonvacuous :
+  Forall (fun sp => rfind_slash (snd sp) <> None) (sheets_of ex_wb) /\
+  parse_merge_cells [1; 0; 0; 0; 1; 0; 0; 0; 1] = Err E_LEN /\
+  get_dimension_h [66; 50; 58; 65; 49] = Ok ((1, 1), (0, 0)).
+Proof. exact ex_no_panic_nonvacuous. Qed.
+
 (* ---------- non-vacuity ----------
    The example workbook meets every hypothesis of the xlsx theorems and uses each form that the
    first round had to except as a known class (strict type URI, absolute target, escaped names
@@ -189,7 +246,7 @@ Proof. exact (conj (conj (N.le_refl _) (conj (N.le_refl _) (conj eq_refl eq_refl
 Check C17_merge_ref_roundtrip :
   forall (st : ref_style) (lower : bool) (d : dims),
     dims_ok ROW_LIMIT COL_LIMIT d -> ref_style_legal st d = true ->
-    get_dimension (render_ref st lower d) = Ok d.
+    get_dimension_h (render_ref st lower d) = Ok d.
 Check C17_table_meta_exact :
   forall (z : zip) (wb : list sheet_e),
     legal wb = true -> Forall sheet_dom wb -> zip_has_tables z wb ->
@@ -228,3 +285,7 @@ Print Assumptions C17_table_names.
 Print Assumptions C17_table_geometry.
 Print Assumptions C17_table_geometry_cells.
 Print Assumptions C17_fast_versions_equal.
+Print Assumptions C17_no_panic_get_dimension.
+Print Assumptions C17_no_panic_read_merge_cells.
+Print Assumptions C17_no_panic_parse_merge_cells.
+Print Assumptions C17_no_panic_table_metadata.
